@@ -240,15 +240,16 @@ struct AssocM {
     /// per automatic task type: (consecutive failures, time of the last one, delay that must elapse)
     backoff: HashMap<String, (u32, u64, u64)>,
     last_activity: u64,
-    /// a fragment from this association was credited to another one (time)
-    misattributed: Option<u64>,
+    /// the last activity as the D25 defect would book it (fragments heard while a non-READ request is outstanding
+    /// credited to that request's destination): used only to name the cause when a keep-alive comes too early
+    last_activity_d25: u64,
     /// created while a task of a removed association with the same address was still running
     tainted: bool,
 }
 
 impl AssocM {
     fn new(cfg: ACfgM, now: u64) -> AssocM {
-        let mut a = AssocM { cfg, pending: BTreeSet::new(), integrity_done: false, queue: VecDeque::new(), polls: Vec::new(), last_unsol: None, backoff: HashMap::new(), last_activity: now, misattributed: None, tainted: false };
+        let mut a = AssocM { cfg, pending: BTreeSet::new(), integrity_done: false, queue: VecDeque::new(), polls: Vec::new(), last_unsol: None, backoff: HashMap::new(), last_activity: now, last_activity_d25: now, tainted: false };
         a.session_reset();
         a
     }
